@@ -32,7 +32,7 @@ def hint_obj(h, variant=0):
         return None
     if h.endswith("[]"):
         t = base[h[:-2]]
-        return [Sequence[t], list[t], tuple[t, ...]][variant % 3]
+        return [Sequence[t], list[t], tuple[t, ...], tuple[t, t, t], tuple[t, t]][variant % 5]
     return base[h]
 
 
@@ -73,9 +73,12 @@ def fb_key(fb):
 
 
 HINT_SRC = {"int": "int", "float": "float", "bool": "bool", "str": "str", "rot": "Rotation2d",
-            "int[]": ["Sequence[int]", "list[int]", "tuple[int, ...]"], "float[]": ["Sequence[float]", "list[float]", "tuple[float, ...]"],
-            "bool[]": ["Sequence[bool]", "list[bool]", "tuple[bool, ...]"], "str[]": ["Sequence[str]", "list[str]", "tuple[str, ...]"],
-            "rot[]": ["Sequence[Rotation2d]", "list[Rotation2d]", "tuple[Rotation2d, ...]"]}
+            "int[]": ["Sequence[int]", "list[int]", "tuple[int, ...]", "tuple[int, int, int]", "tuple[int, int]"],
+            "float[]": ["Sequence[float]", "list[float]", "tuple[float, ...]", "tuple[float, float, float]", "tuple[float, float]"],
+            "bool[]": ["Sequence[bool]", "list[bool]", "tuple[bool, ...]", "tuple[bool, bool, bool]", "tuple[bool, bool]"],
+            "str[]": ["Sequence[str]", "list[str]", "tuple[str, ...]", "tuple[str, str, str]", "tuple[str, str]"],
+            "rot[]": ["Sequence[Rotation2d]", "list[Rotation2d]", "tuple[Rotation2d, ...]", "tuple[Rotation2d, Rotation2d, Rotation2d]",
+                      "tuple[Rotation2d, Rotation2d]"]}
 
 
 def hint_for(fb):
@@ -85,7 +88,7 @@ def hint_for(fb):
         return None
     if fb.get("string_hint"):
         src = HINT_SRC[fb["hint"]]
-        return src if isinstance(src, str) else src[fb.get("variant", 0) % 3]
+        return src if isinstance(src, str) else src[fb.get("variant", 0) % 5]
     return hint_obj(fb["hint"], fb.get("variant", 0))
 
 
